@@ -4,3 +4,4 @@ import MudModel.Poisson
 import MudModel.Hop
 import MudModel.Hopping
 import MudModel.Verlet
+import MudModel.Quadrature
